@@ -541,3 +541,34 @@ func VerifC09_IOLoopLineEndings() {
 		verifrt.Reach("double-cr-is-not-a-line-ending", len(tail) == 2 && tail[0] == '\r' && tail[1] == '\r')
 	}
 }
+
+// A command line longer than the connection's read buffer is never executed: the connection is
+// ended (the 16 KiB line limit; here a 16-byte reader and a 20-byte "NOP   ..." line).
+func VerifC09_OversizedLineEndsTheConnection() {
+	o := verifOpts()
+	n := verifShellNSQD(o)
+	verifrt.StubNative("(*github.com/nsqio/nsq/nsqd.NSQD).Notify", verifNotifyNop)
+	verifrt.Preemptions(0)
+	if verifrt.Symbolic() {
+		verifTickC = make(chan time.Time)
+		verifrt.Stub("time.NewTicker", verifNewTickerStub)
+		verifrt.Stub("(*time.Ticker).Stop", verifTickerStopStub)
+	}
+	pad := 14 + verifrt.Choice("padding", 6) // line of 17..22 bytes + newline: always above the 16-byte buffer
+	wire := []byte("NOP")
+	for i := 0; i < pad; i++ {
+		wire = append(wire, ' ')
+	}
+	wire = append(wire, '\n')
+	wire = append(wire, []byte("PUB t\n")...)
+	wire = append(wire, append(verifBE32(1), 'x')...)
+	cl, conn := verifClient(n, 1, wire)
+	conn.in.err = errEOFVerif
+	p := &protocolV2{nsqd: n}
+	err := p.IOLoop(cl)
+	verifrt.Rest()
+	verifrt.Assert(err != nil, "oversized-command-line-ends-the-connection")
+	_, terr := n.GetExistingTopic("t")
+	verifrt.Assert(terr != nil, "nothing-after-an-oversized-line-is-executed")
+	verifrt.Reach("oversized-line-refused", err != nil)
+}
